@@ -101,3 +101,28 @@ Lemma locate_filter_passes : forall v names, locate_filter_gate v names = None -
 Proof.
   intros v names H; unfold locate_filter_gate in H; rewrite locate_checked in H; exact (template_gate_passes v names H).
 Qed.
+
+(* later fields inside a request on the wire: refused unless the class's reader is a tolerant one *)
+Lemma wire_field_refused : forall cls t v0 v, In (cls, t, v0) SpecFieldVersions -> In v kmip_versions ->
+  str_in cls tolerant_readers = false -> ver_ltb v v0 = true -> wire_processed cls v t = false.
+Proof.
+  intros cls t v0 v Hrow Hv Htol Hlt; unfold wire_processed.
+  rewrite (field_gated_lemma cls t v0 v Hrow Hv), Htol, ver_leb_geb, ver_geb_negb_ltb, Hlt.
+  simpl; apply andb_false_r.
+Qed.
+
+(* no reader of a class with version blocks leaves items unread (computed on the regenerated table) *)
+Lemma no_tolerant_readers : tolerant_readers = [].
+Proof. vm_compute; reflexivity. Qed.
+
+Lemma wire_field_refused_if_none_tolerant : tolerant_readers = [] ->
+  forall cls t v0 v, In (cls, t, v0) SpecFieldVersions -> In v kmip_versions -> ver_ltb v v0 = true ->
+    wire_processed cls v t = false.
+Proof.
+  intros E cls t v0 v Hrow Hv Hlt; apply (wire_field_refused cls t v0 v Hrow Hv); [|assumption].
+  rewrite E; reflexivity.
+Qed.
+
+Lemma wire_field_gated : forall cls t v0 v, In (cls, t, v0) SpecFieldVersions -> In v kmip_versions -> ver_ltb v v0 = true ->
+  wire_processed cls v t = false.
+Proof. exact (wire_field_refused_if_none_tolerant no_tolerant_readers). Qed.
